@@ -43,6 +43,14 @@ set_option maxRecDepth 16384 in
     byte value (table computed by the Go functions RunPackedBinary calls) -/
 theorem isSkip_table : (List.range 256).map isSkip = Ecal.Gen.C20.skipTable := by decide
 
+/-- the extractor translated every piece of pack.go / ecal.go it needs (otherwise reference
+    values stand in the generated file and the theorems would not be about the code) -/
+theorem extract_complete : Ecal.Gen.C20.extractProblems = [] := by decide
+
+/-- cli/ecal.go: the first statement of `main` is the call `tool.RunPackedBinary()`, not guarded
+    by any condition — a packed executable looks for its archive whatever its command line is -/
+theorem main_runs_packed_first : Ecal.Gen.C20.mainCallsRunPackedFirst = true := by decide
+
 /-! ## The property -/
 
 /-- **The archive is found.** For every binary `bin` (any length, any content) such that no
